@@ -42,6 +42,10 @@
   * writers: `NBTField.WriteTo`, `BlockEntity.WriteTo`, `lightData.WriteTo`, `Chunk.WriteTo` (Model/WritersChunk: the height
     maps go through `wEncode` on the anonymous struct of chunk.go behind a counting writer): `C09_writer_faithful_chunk`
     for every chunk, `C09_writer_bytes_chunk`: it writes the bytes of C13's pure model `Chunk.writeTo`.
+  PHASE 2: the NBT form of text components and the chat-type header (C17 stage 2: Model/ChatNBT) — readers
+  `(*Message).ReadFrom`, `(*chat.Type).ReadFrom` (FragInv; reader faults at a fixed recursion budget), writers
+  `Message.WriteTo` (the tag id, then ONE write of what `MarshalNBT` encoded into its buffer) and `(*Type).WriteTo`
+  (Model/WritersChat: Faithful for every value, Exact against C17's pure `writeTo` / `typeEnc`).
 -/
 import GoMC.Lemmas.C09
 import GoMC.Lemmas.Writers
@@ -58,6 +62,9 @@ import GoMC.Props.C13
 import GoMC.Lemmas.WritersLevel
 import GoMC.Lemmas.WritersNBT
 import GoMC.Lemmas.WritersChunk
+import GoMC.Lemmas.WritersChat
+import GoMC.Lemmas.ChatWire
+import GoMC.Props.C17
 namespace GoMC.Props.C09
 open GoMC GoMC.Model GoMC.Spec GoMC.Lemmas
 open GoMC.Lemmas.NBTDecode (S15 isNet)
@@ -577,6 +584,75 @@ theorem C09_writer_fault_chunk (cx : Go.SnbtCarrier) (gbS gbB : Int) (c : Chunk)
     (h1 : c.hm.motionBlocking.data.length < 2 ^ 31) (h2 : c.hm.worldSurface.data.length < 2 ^ 31)
     (k : Nat) (hk : k < (c.writeTo gbS gbB).1.length) : (wChunk cx gbS gbB c ⟨[], some k⟩).1 = Res.err :=
   (WChunk.exact_wChunk cx gbS gbB c h1 h2).fault k hk
+
+
+/-! ## Phase 2 — the NBT form of text components and the chat-type header (models: C17 stage 2, Model/ChatNBT) -/
+
+open GoMC.Model.ChatNBT in
+/-- `(*Message).ReadFrom` into a message holding anything -/
+theorem C09_frag_chat_nbt (old : Go.GoVal) : Rd.FragInv (readFromInto old) := C17.C17_nbt_fragInv old
+
+open GoMC.Model.ChatNBT in
+/-- reader faults at a fixed recursion budget of the NBT decoder (the entry point takes it from the length of the
+source): a source that ends after a strict prefix of what a successful run consumed never yields success … -/
+theorem C09_reader_fault_chat_nbt (fuel : Nat) (old : Go.GoVal) (s s' : Stream) (a : Go.GoVal × Nat)
+    (pre more rest : Bytes) (hs : s.flat = pre ++ more ++ rest)
+    (hrun : readFromIntoF fuel old s = (Res.ok a, s')) (hres : s'.flat = rest) (hmore : more ≠ [])
+    (t : Stream) (ht : t.flat = pre) : ∀ b, (readFromIntoF fuel old t).1 ≠ Res.ok b :=
+  C09_reader_fault _ (C17.C17_nbt_extStable fuel old) s s' a pre more rest hs hrun hres hmore t ht
+
+open GoMC.Model.ChatNBT in
+/-- … and into a fresh message it is an error (not a panic) -/
+theorem C09_reader_fault_chat_nbt_fresh (fuel : Nat) (s s' : Stream) (a : Go.GoVal × Nat)
+    (pre more rest : Bytes) (hs : s.flat = pre ++ more ++ rest)
+    (hrun : readFromIntoF fuel messageTy.zero s = (Res.ok a, s')) (hres : s'.flat = rest) (hmore : more ≠ [])
+    (t : Stream) (ht : t.flat = pre) : (readFromIntoF fuel messageTy.zero t).1 = Res.err :=
+  Res.eq_err_of (C09_reader_fault_chat_nbt fuel _ s s' a pre more rest hs hrun hres hmore t ht)
+    (C17.C17_nbt_decode_never_panics fuel t).1
+
+open GoMC.Model.Chat GoMC.Model.ChatNBT in
+/-- `(*chat.Type).ReadFrom` into a `Type` holding anything -/
+theorem C09_frag_chat_type (old : ChatTypeOf Go.GoVal) : Rd.FragInv (typeRead old) :=
+  ChatWire.fragInv_typeDec nameCodec old (C17.C17_nbt_fragInv _) (C17.C17_nbt_fragInv _)
+
+open GoMC.Model.Chat GoMC.Model.ChatNBT in
+theorem C09_reader_fault_chat_type (fuel : Nat) (old : ChatTypeOf Go.GoVal) (s s' : Stream) (a : ChatTypeOf Go.GoVal × Nat)
+    (pre more rest : Bytes) (hs : s.flat = pre ++ more ++ rest)
+    (hrun : typeReadF fuel old s = (Res.ok a, s')) (hres : s'.flat = rest) (hmore : more ≠ [])
+    (t : Stream) (ht : t.flat = pre) : ∀ b, (typeReadF fuel old t).1 ≠ Res.ok b :=
+  C09_reader_fault _ (ChatWire.extStable_typeDec (nameCodecF fuel) old (C17.C17_nbt_extStable fuel _) (C17.C17_nbt_extStable fuel _))
+    s s' a pre more rest hs hrun hres hmore t ht
+
+open GoMC.Model.ChatNBT in
+/-- `Message.WriteTo` (NBT form: the tag id, then `MarshalNBT` encodes into a buffer and hands it over with one write)
+never swallows a sink failure — for every component, also one that cannot be encoded -/
+theorem C09_writer_faithful_chat_nbt (m : Msg) : Wr.Faithful (wMessage m) := WChat.faithful_wMessage m
+
+open GoMC.Model.ChatNBT in
+/-- it writes what C17's pure model `ChatNBT.writeTo` says (whose round trip is `C17_nbt_roundtrip`) and returns the count … -/
+theorem C09_writer_bytes_chat_nbt (m : Msg) (bytes : Bytes) (n : Nat) (h : writeTo m = Res.ok (bytes, n)) :
+    Wr.run (wMessage m) = (Res.ok n, bytes) := (WChat.exact_wMessage m bytes n h).run
+
+open GoMC.Model.ChatNBT in
+/-- … and under every budget below that many bytes the result is an error -/
+theorem C09_writer_fault_chat_nbt (m : Msg) (bytes : Bytes) (n : Nat) (h : writeTo m = Res.ok (bytes, n)) (k : Nat)
+    (hk : k < bytes.length) : (wMessage m ⟨[], some k⟩).1 = Res.err := (WChat.exact_wMessage m bytes n h).fault k hk
+
+open GoMC.Model.Chat GoMC.Model.ChatNBT in
+/-- `(*chat.Type).WriteTo` -/
+theorem C09_writer_faithful_chat_type (t : ChatType) : Wr.Faithful (wType t) := WChat.faithful_wType t
+
+open GoMC.Model.Chat GoMC.Model.ChatNBT in
+/-- it writes `Chat.typeEnc` over the NBT-form codec (layout: `C17_type_layout`, round trip: `C17_type_roundtrip_nbt`)
+when both names can be written -/
+theorem C09_writer_bytes_chat_type (t : ChatType) (hs : ∃ r, writeTo t.sender = Res.ok r)
+    (ht : ∀ m, t.target = some m → ∃ r, writeTo m = Res.ok r) :
+    Wr.run (wType t) = (Res.ok (typeEnc msgCodecFresh t).2, (typeEnc msgCodecFresh t).1) := (WChat.exact_wType t hs ht).run
+
+open GoMC.Model.Chat GoMC.Model.ChatNBT in
+theorem C09_writer_fault_chat_type (t : ChatType) (hs : ∃ r, writeTo t.sender = Res.ok r)
+    (ht : ∀ m, t.target = some m → ∃ r, writeTo m = Res.ok r) (k : Nat) (hk : k < (typeEnc msgCodecFresh t).1.length) :
+    (wType t ⟨[], some k⟩).1 = Res.err := (WChat.exact_wType t hs ht).fault k hk
 
 /-! ## Non-vacuity -/
 
